@@ -122,6 +122,25 @@ def tlc_design(scratch, module, cfg, timeout=3600, workers="auto", heap="8g", en
     return {"module": module, "cfg": cfg, "generated": gen_n, "distinct": dist_n, "wall_s": round(time.time() - t0, 1)}
 
 
+def tlaps_design(scratch, module, timeout=900):
+    """Design-level proof: every obligation of spec/<module>.tla must be discharged by tlapm (TLAPS)."""
+    t0 = time.time()
+    d = os.path.join(scratch.dir, "tlaps-" + module)
+    os.makedirs(d, exist_ok=True)
+    shutil.copy(os.path.join(VERIF, "spec", module + ".tla"), d)
+    try:
+        r = subprocess.run(["timeout", str(timeout), "tlapm", "--threads", "8", module + ".tla"], cwd=d,
+                           capture_output=True, text=True)
+    except OSError as e:
+        raise Infra("tlapm could not be started: %s" % e)
+    out = r.stdout + r.stderr
+    m = re.search(r"All (\d+) obligations? proved", out)
+    if r.returncode != 0 or not m:
+        raise Infra("proof of %s did not go through (the specification is inconsistent or a back end is missing):\n%s" % (module, out[-2000:]))
+    return {"module": module, "cfg": "tlapm", "generated": int(m.group(1)), "distinct": int(m.group(1)),
+            "wall_s": round(time.time() - t0, 1), "proved_obligations": int(m.group(1))}
+
+
 VERDICT_RE = re.compile(r'<<\s*"VERDICT",\s*(-?\d+),\s*(\d+),\s*\{([^}]*)\}\s*>>', re.S)
 
 
